@@ -348,8 +348,8 @@ class Engine:
         if isinstance(t, (ArrTy, VecTy)): return [s.zero_of(t.elem) for _ in range(t.n)]
         return 0
 
-    def feasible(s, pc):
-        if getattr(s, 'is_final', False) and s.phase == 'threads': return True     # oracle code: let the solver prune
+    def feasible(s, pc, force=False):
+        if getattr(s, 'is_final', False) and s.phase == 'threads' and not force: return True     # oracle code: let the solver prune
         s.local_solver.push()
         for c in pc: s.local_solver.add(c)
         r = s.local_solver.check()
@@ -521,6 +521,8 @@ class Engine:
         done = set()
         for a in sorted(keys):
             if a in done: continue
+            if s.is_final and a < STACK_BASE and any(a not in p.mem.d for p in group):
+                m.mem.d.pop(a, None); continue      # epilogue read cache: valid only if every merged path has read it
             cells = [p.mem.get(a) for p in group]
             c0 = cells[0]
             if all(same(c, c0) for c in cells): continue
@@ -581,7 +583,8 @@ class Engine:
     def goto(s, p, f, label):
         n = f.visits.get(label, 0) + 1
         f.visits[label] = n
-        bound = s.loop_bound if s.phase != 'init' and not s.is_final else 100000
+        bound = s.loop_bound if s.phase != 'init' else 100000
+        if s.is_final: bound = 64
         if s.loop_bounds and s.phase != 'init':
             for k, v in s.loop_bounds.items():
                 if k in f.fn.name: bound = v
@@ -620,12 +623,13 @@ class Engine:
         s.stats['forks'] += 1
         p.nsym += 1
         _, nest, loops = s.cfg_info(f.fn)
+        isexit = False
         for h in nest.get(f.block, []):
-            if (lt in loops[h]) != (lf in loops[h]): f.symexit.add(h)
+            if (lt in loops[h]) != (lf in loops[h]): f.symexit.add(h); isexit = True
         q = p.fork(); q.pc.append(c)
-        if s.feasible(q.pc):
+        if s.feasible(q.pc, isexit):
             p.pc.append(z3.Not(c))
-            if not s.feasible(p.pc):
+            if not s.feasible(p.pc, isexit):
                 s.mark_symloops(q.frames[-1])       # a symbolic decision with one side pruned still makes the iteration symbolic
                 p = None
             if s.goto(q, q.frames[-1], lt): s.work.append(q)
@@ -633,7 +637,7 @@ class Engine:
         else:
             s.mark_symloops(f)
             p.pc.append(z3.Not(c))
-            if not s.feasible(p.pc): return 'end'
+            if not s.feasible(p.pc, isexit): return 'end'
         return 'moved' if s.goto(p, f, lf) else 'end'
 
     # ------------------------------------------------------------------ memory access
@@ -736,7 +740,12 @@ class Engine:
             s.seq_store(p, addr, size, val); return None
         if s.phase == 'threads':
             if is_c(addr): p.mem.store(addr, size, val)
-            elif s.is_final: raise Unsupported('symbolic-address store in vf_final')
+            elif s.is_final:
+                # the epilogue runs alone: read the old contents of every candidate once, then keep everything path-local
+                for a in [x for x in s.enum_values(addr, p.pc) if x < STACK_BASE and s.in_alloc(x, size)]:
+                    old, _ = s.shared_load(p, a, size, 'na', text)
+                    p.mem.store(a, size, s.ite_b(tobv(addr, 64) == a, val, old, 8 * size))
+                return None
             else:
                 priv, shared = s.split_cands(p, addr, text)
                 for a in priv:
